@@ -128,3 +128,43 @@ def make_open(world, real_open):
         return real_open(file, mode, *a, **kw)
 
     return open_
+
+
+def make_id(world, real_id, prefix: str):
+    """``id()`` as seen by library frames: CPython hands the address of a freed object to the next allocation of that size, which
+    depends on everything the process allocated before.  Inside the world the same effect is deterministic: an object gets the
+    lowest free slot number when the library first asks for its identity and gives it back when it is collected (reference
+    counting makes that moment deterministic), so the next object of a history re-uses it.  A memo keyed by ``id(obj)`` then
+    behaves the same way in every process."""
+    import sys
+    import weakref
+
+    slots: t.Dict[int, int] = {}      # real id -> slot
+    free: t.List[int] = []
+    state = {"next": 1}
+
+    def release(rid: int) -> None:
+        slot = slots.pop(rid, None)
+        if slot is not None:
+            free.append(slot)
+            free.sort(reverse=True)
+
+    def sim_id(obj):
+        f = sys._getframe(1)
+        if not f.f_code.co_filename.startswith(prefix):
+            return real_id(obj)
+        rid = real_id(obj)
+        slot = slots.get(rid)
+        if slot is None:
+            try:
+                weakref.finalize(obj, release, rid)
+            except TypeError:
+                return rid  # (not weak-referenceable: ints, bytes, tuples keep their real identity)
+            slot = free.pop() if free else state["next"]
+            if slot == state["next"]:
+                state["next"] += 1
+            slots[rid] = slot
+            world.stats["sim_ids"] += 1
+        return 0x7F0000000000 + 64 * slot
+
+    return sim_id
